@@ -219,10 +219,24 @@ type rec struct{ trace []string }
 func mkHandler(h hnd, tr *rec) fiber.Handler {
 	return func(c fiber.Ctx) error {
 		var ps []string
+		wild := false
 		for _, p := range c.Route().Params {
 			ps = append(ps, gen.Hex(p)+"="+gen.Hex(c.Params(p)))
+			if p != "" && (p[0] == '*' || p[0] == '+') {
+				wild = true
+			}
 		}
-		tr.trace = append(tr.trace, strconv.Itoa(h.id)+"["+strings.Join(ps, "&")+"]")
+		ent := strconv.Itoa(h.id) + "[" + strings.Join(ps, "&") + "]"
+		if wild {
+			// numbered wildcard keys are looked up by name: *1, *2, … must mean the same value in
+			// both compositions whatever Route().Params lists
+			var ws []string
+			for _, k := range []string{"*", "*1", "*2", "*3", "+", "+1", "+2", "+3"} {
+				ws = append(ws, gen.Hex(c.Params(k)))
+			}
+			ent += "{" + strings.Join(ws, "&") + "}"
+		}
+		tr.trace = append(tr.trace, ent)
 		if h.stop {
 			return c.SendString("h" + strconv.Itoa(h.id))
 		}
